@@ -178,6 +178,9 @@ def _dtype_class(e, sig):
         return "in" if S.show(d) in (sig + ".dtype",) else ("f64" if S.show(d) in ("numpy.float64", "np.float64", "float") else "?")
     if nm in ("np.zeros_like", "np.pad", "np.ascontiguousarray", "np.asarray", "np.array", "getitem", ".copy", "np.flip", ".reshape", "np.atleast_1d") and "dtype" not in kws:
         return _dtype_class(e.args[1], sig)
+    if nm in ("np.ascontiguousarray", "np.asarray", "np.array", "np.asfarray", "np.require") and "dtype" in kws:
+        d = S.show(kws["dtype"])
+        return "in" if d == sig + ".dtype" else ("f64" if d in ("numpy.float64", "np.float64", "float", "'float64'", "'f8'") else "?")
     if nm in ("np.concatenate", "np.hstack", "np.append"):
         items = e.args[1].args[1:] if (isinstance(e.args[1], S.E) and e.args[1].op == "call" and e.args[1].args[0] in ("list", "tuple")) else e.args[1:]
         ks = {_dtype_class(i, sig) for i in items if isinstance(i, S.E) and not (i.op == "call" and str(i.args[0]).startswith("kw:"))}
